@@ -86,7 +86,8 @@ pub fn realistic_junk(rng: &mut Rng, scheme: ManifestNamingScheme) -> String {
 
 /// names that are NOT produced by lance but are in the functions' domain (store-safe characters only)
 pub fn adversarial_name(rng: &mut Rng) -> String {
-    let v = rand_version(rng, rng.chance(3, 4));
+    let att = rng.chance(3, 4);
+    let v = rand_version(rng, att);
     match rng.below(16) {
         0 => format!("{:03}.manifest", rng.below(100)),
         1 => format!("+{}.manifest", v),
